@@ -14,7 +14,14 @@ Oracles
   equals the reference likelihood evaluated at the reported parameter values (so a
   stale calculator / parameter-controller mismatch shows).
 * ``app``: ``hypothesis`` / ``model_collection`` apps, null -> alt (-> alt2), every
-  model with its own evaluation limit: LR >= 0 and lnL non-decreasing along the chain.
+  model with its own evaluation limit and optimiser (Powell, annealing, both): LR >= 0,
+  lnL non-decreasing along the chain, fitted values inside the declared box.
+* ``natsel``: the library's own nested-hypothesis apps (``natsel_neutral``,
+  ``natsel_timehet``, ``natsel_sitehet``, ``natsel_zhang``) on small codon alignments:
+  hypothesis_result returned, degrees of freedom as documented, LR >= 0, fitted values
+  inside the bounds the app declares, and (neutral / timehet) the app's alt
+  re-initialised from the app's fitted null by a direct, unguarded
+  ``initialise_from_nested`` call reproduces the null's likelihood.
 """
 
 from __future__ import annotations
@@ -32,34 +39,58 @@ RULE = (
     "init: a case is a nested pair (null, alt) of nucleotide models on a 3-5 tip tree with a generated DNA alignment "
     "(12-120 columns, skewed composition, gaps and N). Pairs are nested by rate-matrix structure (chains among JC69, K80, "
     "F81, HKY85, TN93, GTR, ssGN, GN; user predicate models whose alt predicates refine the null's partition of the six "
-    "exchangeabilities; alt = null + one extra predicate), by scoping (alt parameter independent per edge / shared on an edge "
-    "subset / independent on a subset; null lengths constrained equal; null parameter with a second value on an edge subset) "
-    "or both. About 30 % of the nulls with rate parameters hold one or more of them constant (unscoped rule, value at least a factor 2 from 1). Null parameters are random inside their bounds (rates 0.05-20, lengths 1e-3-2, random or data motif probs). "
+    "exchangeabilities; alt = null + one extra predicate), by scoping or both. Scoping of the null: one parameter with a second value on "
+    "an edge subset S, or every (not excluded) parameter through set_time_heterogeneity(edge_sets=[S]); lengths all equal, or 1-2 groups of "
+    "edges sharing a length (set_local_clock on sibling tips, or any edge group). Scoping of the alt: a parameter independent per edge / shared on an edge "
+    "subset / independent on a subset / a strict refinement of the null's partition {S, rest} into up to 4 groups (each shared or independent, the last one "
+    "possibly left implicit), the same through set_time_heterogeneity(edge_sets=...) for all parameters (with exclude_params), or the maximally heterogeneous form; "
+    "length groups that refine the null's. About 30 % of the nulls with rate parameters hold one or more of them constant (unscoped rule, value at least a factor 2 from 1). "
+    "Null parameters are random inside their bounds (rates 0.05-20, lengths 1e-3-2, random or data motif probs). "
     "Non-trivial = alt has at least 2 more free parameters than the null and the null's motif probabilities are unequal. "
-    "init-codon: the same relation on codon pairs (MG94HKY/MG94GTR, CNFHKY/CNFGTR, GY94 or Y98 / H04G, Y98 / H04GK, "
-    "H04G / H04GGK, omega or kappa per edge), 3 tips, 8-16 codons. "
+    "init-codon: the same relation on codon pairs (MG94HKY/MG94GTR, CNFHKY/CNFGTR, GY94 or Y98 / H04G, Y98 / H04GK, H04G / H04GGK, or one of 8 codon models against itself) "
+    "on 3-5 tip trees, 8-16 codons, random or data motif probabilities; the null's omega is free, constant at 1.0 (the canonical neutral null), constant at another value, "
+    "two-valued on an edge subset or constant 1.0 on an edge subset; the alt's omega or kappa is global, per edge, shared on a subset or refines the null's partition. "
     "optimise: a case is a nucleotide model (optionally with a per-edge parameter), tree, alignment, start values inside "
     "case-declared bounds (default or tight) and optimiser settings (local Powell / global annealing then local / global only, "
     "max_evaluations 1-30, 50, 100, 400 or 3000, tolerance, global_tolerance, max_restarts, limit_action, annealer seed). Non-trivial = the run "
     "reached its evaluation limit. app: a chain of 2-3 nested models fitted through the hypothesis / model_collection apps "
-    "with per-model max_evaluations 1-100, the null optionally with constant rate parameters (param_rules); non-trivial = at least 2 degrees of freedom. Distinct = distinct case encodings."
+    "with per-model max_evaluations 1-100 and optimiser (Powell / annealing+Powell / annealing), the null optionally with constant rate parameters (param_rules), the last model optionally "
+    "time-heterogeneous ('max' or one edge set, shared or independent); non-trivial = at least 2 degrees of freedom. "
+    "natsel: one of natsel_neutral / natsel_timehet / natsel_sitehet / natsel_zhang with one of 6 codon models on a 3-5 tip tree (or no tree for 3 taxa), "
+    "8-20 codons (sense codons and '---'), foreground = one tip, a sibling pair, its stem or both, is_independent, upper_omega 2-50, data or free motif probabilities, "
+    "max_evaluations 1-30 with limit_action='ignore', Powell mostly, annealing sometimes; non-trivial = alt richer and more than one evaluation allowed. Distinct = distinct case encodings."
 )
 ASSUMPTIONS = [
     "pairs are nested for every motif-probability vector of the null: GTR (or any reversible model with unequal pi) inside ssGN is excluded; JC69/K80 (uniform pi) inside ssGN is included",
     "the alt has strictly more free parameters than the null (the API asserts it): the alt's motif probabilities are free whenever the null's are free or the null is a uniform-pi model and the alt is not; cases that are not richer by get_num_free_params() are classed 'not-richer' and not compared",
     "alt likelihood functions are freshly constructed (rate parameters at their default 1.0) before initialise_from_nested",
     "user predicate models: the alt's reference (parameter-free) exchangeabilities are a subset of the null's reference exchangeabilities",
-    "when the null carries a parameter with two values (edge subset vs rest), the alt is scoped either not at all, fully independent per edge, or shared on the same edge subset",
+    "when the null carries parameters with two values (edge subset S vs rest; one parameter, or all through set_time_heterogeneity), the alt is scoped either not at all, fully independent per edge, shared on the same edge subset, "
+    "or by groups that refine {S, rest}: every explicit group and the implicit remainder lie inside S or inside the rest (a group across the two is not nested; the library rejects it with 'too many mappings')",
+    "values of a scoped null are set with set_param_rule(p, edges=..., is_independent=False, init=v): without is_independent=False the call unties the edges again (observed, by design of set_param_rule)",
+    "set_local_clock only for sibling tips below a named internal edge (its docstring: 'only valid for tips connected to the same node'; with the root as that node the clade is the whole tree); "
+    "alt length groups are the null's groups, subsets of them, or anything when all null lengths are equal; none when the null's lengths are free",
     "constant null rate parameters are set through one unscoped rule (is_constant=True, value v with |log10 v| >= 0.3) and are never the null's two-valued parameter; in the app sub-check only the first model of a chain holds constants (param_rules), values 0.12-11 inside the default box",
     "one bin, one locus (initialise_from_nested raises NotImplementedError otherwise, as its source states)",
     "alignment symbols are A C G T, '-' and N only (gap and N fully ambiguous); codon alignments hold sense codons and '---'",
     "|alt.lnL - null.lnL| <= 1e-6 (absolute) after initialisation; motif probs / lengths equal to 1e-9; reference lnL agrees to 1e-7 * max(1,|lnL|)",
     "optimise: lnL_after >= lnL_before - 1e-9*max(1,|lnL|); values within declared bounds with slack 1e-9*max(1,|bound|); start values lie inside the bounds; the annealer always gets an explicit seed",
     "optimise: max_evaluations is always given (<= 3000); limit_action='raise' may raise the documented ArithmeticError, after which the same clauses are checked",
-    "app: limit_action='ignore', local optimiser, app default bounds 1e-6..50; from the first reversible -> non-reversible step of a chain on, the models get lower=1e-12, upper=1e9 "
+    "app: limit_action='ignore'; Powell, annealing + Powell or annealing alone (explicit seed); fitted rates and lengths must lie in the box the model app was given, constants at their value; app default bounds 1e-6..50; from the first reversible -> non-reversible step of a chain on, the models get lower=1e-12, upper=1e9 "
     "(with equal boxes the projected null value * pi_j / pi_ref can fall outside the alt's box, where it is clipped: the bounded alt then does not contain the null, so the pair is not nested); LR >= -1e-6",
     "optimise: the reported parameters are compared with the reference likelihood only when every reported motif probability exceeds 1e-5 (get_motif_probs lifts smaller values to its 1e-6 floor by design)",
-    "the codon sub-check has no independent reference likelihood (relation between null and alt only)",
+    "the codon sub-check has no independent reference likelihood (relation between null and alt only); a null omega constant at 1.0 equals the fresh alt's default, so dropping it would go unseen: constants 0.2 / 0.5 / 3.0 and edge-subset constants are generated as well",
+    "codon substitution models are built once per process and deep-copied per case (construction takes 1-2.5 s)",
+    "natsel: alignments hold sense codons of the standard code and '---' only and tip names come from the tree, so no documented NotCompleted reason applies: any NotCompleted is reported",
+    "natsel: degrees of freedom as the app docstrings describe the alternates and tests/test_app/test_evo.py pins: neutral 1, sitehet 2, zhang 3, timehet 1 or (is_independent) the number of foreground edges; "
+    "foreground = tip1 alone, or for sibling tips below a named internal edge the two tips (clade), that edge (stem) or both; without a tree the two named tips",
+    "natsel bounds are those the app source declares: box 1e-6..50 for rates and lengths; neutral null omega = 1; timehet foreground omega <= upper_omega; sitehet / zhang class omegas <= 1-1e-6, = 1, "
+    "in [1, upper_omega] on the foreground, and zhang's 2a / 2b background omegas equal to those of classes 0 / 1",
+    "natsel_neutral / natsel_timehet: LR >= -1e-6. natsel_sitehet / natsel_zhang start the alt next to the null, not on it (every class probability lowered by epsilon = 1e-6, new classes with probability epsilon "
+    "and omega 1 + epsilon; initialise_from_nested is not used, it raises NotImplementedError for more than one bin): LR >= -(1e-6 + 4 * codons * epsilon * sum_b 1/p_b) with p_b the null's fitted class probabilities",
+    "natsel: the direct initialise_from_nested call is made on the app's fitted alt (every parameter of these alternates has a source in the null, so stale values cannot survive); |alt.lnL - null.lnL| <= 1e-6",
+    "natsel_timehet with the null's fitted omega above upper_omega gets its own signature suffix (null-omega-above-upper_omega): the app bounds omega by upper_omega on the foreground of the alt only, "
+    "so that null lies outside the alt (confirmed defect, see C16_ext_findings.md)",
 ]
 
 BASES = "TCAG"  # cogent3's DNA order; the reference only needs a fixed order
@@ -1540,8 +1571,8 @@ SUBS = [
 KNOWN_PREDICATES = {}
 
 META = {
-    "technique": "Hypothesis-generated nested model pairs and optimiser runs; metamorphic relation null.lnL == alt.lnL after initialise_from_nested and lnL_after >= lnL_before, backed by an independent reference likelihood (rate-matrix cell tables, scipy expm, Felsenstein pruning) written in the check; hypothesis / model_collection apps end to end",
-    "level_text": "Each run builds about 1 200 nested nucleotide pairs (23 named structural pairs, user predicate refinements and extra predicates, per-edge / subset scoping on either side, lengths constrained equal) with random null parameters and compares the initialised alt's likelihood with the null's and with an independent pruning implementation; runs about 640 local / global optimisations from random starts inside case-declared bounds under evaluation limits 1-3000 checking monotonicity, bounds and that the reported parameters reproduce the reported likelihood; and fits about 200 null->alt(->alt2) chains through the apps checking LR >= 0.",
-    "level_note": "Trusts the reference likelihood (about 70 lines) and the cell tables of eight nucleotide models. Codon pairs are only compared null-vs-alt (no reference) and only 24 per quick run. One bin and one locus only. Monotonicity is checked, not convergence; the annealer runs with at most 400 evaluations.",
+    "technique": "Hypothesis-generated nested model pairs and optimiser runs; metamorphic relation null.lnL == alt.lnL after initialise_from_nested and lnL_after >= lnL_before, backed by an independent reference likelihood (rate-matrix cell tables, scipy expm, Felsenstein pruning) written in the check; hypothesis / model_collection / natsel_* apps end to end",
+    "level_text": "Each run builds about 1 200 nested nucleotide pairs (23 named structural pairs, user predicate refinements and extra predicates, per-edge / subset / refined-partition / time-heterogeneous scoping on either side, lengths equal, grouped or under a local clock) with random null parameters and compares the initialised alt's likelihood with the null's and with an independent pruning implementation; 160 codon pairs (omega constant at 1.0 or elsewhere, two-valued, random motif probabilities, 3-5 tips); runs about 640 local / global optimisations from random starts inside case-declared bounds under evaluation limits 1-3000 checking monotonicity, bounds and that the reported parameters reproduce the reported likelihood; fits about 200 null->alt(->alt2) chains through the apps with Powell and annealing checking LR >= 0 and bounds; and runs about 100 natsel_neutral / timehet / sitehet / zhang tests checking result type, degrees of freedom, LR >= 0, declared bounds and a direct re-initialisation of the app's alt from its null.",
+    "level_note": "Trusts the reference likelihood (about 70 lines) and the cell tables of eight nucleotide models. Codon pairs are only compared null-vs-alt (no reference). One bin and one locus for initialise_from_nested (the library supports no more); the binned natsel apps are judged through LR with a tolerance derived from their epsilon. Monotonicity is checked, not convergence; the annealer runs with at most 400 evaluations.",
     "design_ref": "DESIGN.md section 1, C16",
 }
